@@ -16,6 +16,7 @@ inductive FTok
   | act (i : Nat) (a : Act) (seen : Option Bool)   -- signaller i did this action (a look reports what it saw)
   | handler (i : Nat)                              -- the results handler took up the failure that signaller i had queued
   | store (who : Nat) (j : Job)                    -- the failure produced by signaller `who` was written under job id j
+  | drop (who : Nat) (j : Job)                     -- the attempt to write it there had no effect
   | saw | read (j : Job) | raised (who : Nat)
 
 def parseFTok (s : String) : Option FTok :=
@@ -28,6 +29,7 @@ def parseFTok (s : String) : Option FTok :=
   | ["A", i] => do some (.act (← i.toNat?) .publishAll none)
   | ["H", i] => do some (.handler (← i.toNat?))
   | ["S", w, j] => do some (.store (← w.toNat?) (← j.toNat?))
+  | ["D", w, j] => do some (.drop (← w.toNat?) (← j.toNat?))
   | ["MS"] => some .saw
   | ["MR", j] => do some (.read (← j.toNat?))
   | ["MX", w] => do some (.raised (← w.toNat?))
@@ -59,6 +61,10 @@ def handleFFail (fs : List (String × String)) : Option String := do
         | .store who j =>
           match s.pend.findIdx? (· == (j, who)) with
           | some k => step s (.store k)
+          | none => none
+        | .drop who j =>
+          match s.pend.findIdx? (· == (j, who)) with
+          | some k => step s (.drop k)
           | none => none
         | .saw => if s.main == .waiting then step s .main else none
         | .read j => if s.main == .saw && s.slot == j then step s .main else none
